@@ -5,10 +5,14 @@ import itertools
 from harness.engine import Prop
 from harness.wire import to_wire, to_py
 
-ATOMS = [None, True, False, 0, 1, 2, 1.5, 2.5, 'a', 'ab', 'a*', '?b', '[a', '[ab]*', '[!a]b', {'x': 1}, (1, 2), dict]
+# look-alikes of different types ("1" / 1 / True, "None" / None, "2.5" / 2.5, "a|b") keep apart answers that a text-keyed
+# memo or a str()-based comparison would merge
+ATOMS = [None, True, False, 0, 1, 2, 1.5, 2.5, 'a', 'ab', 'a*', '?b', '[a', '[ab]*', '[!a]b', {'x': 1}, (1, 2), dict,
+         '1', '2.5', 'None', 'True', 'a|b']
 OPS = ['=', '<', '<=', '>', '>=', '??', 5]
 OP_VALUES = [None, False, 1, 2.5, 'ab', [1], [1, 'a'], (1, 2), {'x': 1}]
-MD_VALUES = ['<absent>', None, False, True, 1, 2, 2.5, 'a', 'ab', 'b', [1], [1, 'a'], [2], {'x': 1}, (1, 2), (1, 3), dict, str]
+MD_VALUES = ['<absent>', None, False, True, 1, 2, 2.5, 'a', 'ab', 'b', [1], [1, 'a'], [2], {'x': 1}, (1, 2), (1, 3), dict, str,
+             '1', '2.5', 'None', 'True', 'b|a', "{'x': 1}", '(1, 2)', '[1]']
 
 
 def simple_pattern(p):
@@ -47,6 +51,16 @@ def simple_pattern(p):
                 k += 1
         i = j + 1
     return True
+
+
+def json_native(v):
+    if v is None or isinstance(v, (bool, int, float, str)):
+        return True
+    if isinstance(v, list):
+        return all(json_native(x) for x in v)
+    if isinstance(v, dict):
+        return all(isinstance(k, str) and json_native(x) for k, x in v.items())
+    return False
 
 
 def spec_value(f, r):
@@ -118,7 +132,20 @@ class C14(Prop):
             recs = [{k: self.rand_value(rng, 1) for k in rng.sample(['a', 'b', 'c'], rng.randint(0, 3))}
                     for _ in range(rng.randint(1, 5))]
             f = {k: self.rand_filter(rng, 1) for k in rng.sample(['a', 'b', 'c'], rng.randint(1, 2))}
-            cases.append({'kind': 'listing', 'f': to_wire(f)['d'], 'recs': [to_wire(r)['d'] for r in recs]})
+            case = {'kind': 'listing', 'f': to_wire(f)['d'], 'recs': [to_wire(r)['d'] for r in recs]}
+            # the same listing through the file cassette, and through S3 when everything is JSON-native (known finding K3
+            # otherwise: S3 filters the JSON text of the metadata)
+            if json_native(f) and all(json_native(r) for r in recs):
+                case['cassette'] = rng.choice(['memory', 'file', 's3', 's3'])
+            else:
+                case['cassette'] = rng.choice(['memory', 'file'])
+            cases.append(case)
+        # a missing value matches only a None alternative - through every cassette's listing, keys that JSON escapes included
+        for key in ['a', 'é', 'q"uote']:
+            for f in ({key: None}, {key: [1, None]}, {key: {'operator': '=', 'value': None}}, {key: [2]}, {key: 'x*'}):
+                for kind in ('memory', 'file', 's3'):
+                    cases.append({'kind': 'listing', 'cassette': kind, 'f': to_wire(f)['d'],
+                                  'recs': [to_wire(r)['d'] for r in ({}, {key: 1}, {key: None}, {'other': 2}, {key: 'xy'})]})
         return cases
 
     @staticmethod
@@ -136,7 +163,8 @@ class C14(Prop):
         if c < 0.5:
             return rng.choice([0.5, 1.0, 1.5, -2.25, 1e300])
         if c < 0.72:
-            return rng.choice(['', 'a', 'ab', 'abc', 'b', 'B', 'a*', '[', 'a]b', '-', 'é', 'x\ny'])
+            return rng.choice(['', 'a', 'ab', 'abc', 'b', 'B', 'a*', '[', 'a]b', '-', 'é', 'x\ny', '0', '1', '2', '-1', '0.5',
+                               'None', 'True', 'False'])
         if c < 0.76:
             return rng.choice([dict, str, ValueError])
         if depth <= 0:
@@ -186,8 +214,22 @@ class C14(Prop):
             except Exception as ex:  # the property says this never happens
                 return type(ex).__name__
             return r if isinstance(r, bool) else 'non-bool:%s' % type(r).__name__
-        from playback.tape_cassettes.in_memory.in_memory_tape_cassette import InMemoryTapeCassette
-        cassette = InMemoryTapeCassette()
+        kind = case.get('cassette', 'memory')
+        tmp = None
+        if kind == 'file':
+            import tempfile
+            from playback.tape_cassettes.file_based.file_based_tape_cassette import FileBasedTapeCassette
+            tmp = tempfile.mkdtemp(prefix='verif-c14-')
+            cassette = FileBasedTapeCassette(tmp)
+        elif kind == 's3':
+            from harness import fake_s3
+            fake_s3.reset()
+            fake_s3.install()
+            from playback.tape_cassettes.s3.s3_tape_cassette import S3TapeCassette
+            cassette = S3TapeCassette('b14', key_prefix='', read_only=False)
+        else:
+            from playback.tape_cassettes.in_memory.in_memory_tape_cassette import InMemoryTapeCassette
+            cassette = InMemoryTapeCassette()
         ids = []
         for rec in case['recs']:
             r = cassette.create_new_recording('Op')
@@ -198,6 +240,10 @@ class C14(Prop):
             got = list(cassette.iter_recording_ids('Op', metadata=f))
         except Exception as ex:
             return type(ex).__name__
+        finally:
+            if tmp:
+                import shutil
+                shutil.rmtree(tmp, ignore_errors=True)
         return sorted(ids.index(g) for g in got)
 
     def model_requests(self, case):
